@@ -289,9 +289,9 @@ Definition state_after (st : kstate) (r : reload) : option kstate :=
 
 (** * Trust store (NewTrustStoreFromPEMBytes through pemx.ReadPEM): certificates
     are collected, other blocks are an error in strict mode and skipped
-    otherwise.  ReadPEM calls pem.Decode and uses the block without a nil check:
-    no block at all, or bytes after the last block that do not decode
-    ([ts_trailing]), is a nil dereference. *)
+    otherwise.  Before b504821 ReadPEM used the result of pem.Decode without a nil check: no block at all,
+    or bytes after the last block that do not decode ([ts_trailing]), was a nil dereference (fx7); before
+    9709c71 such input was then accepted silently (fx10); now it is an error. *)
 Record ts_input := { ts_blocks : list block; ts_trailing : bool }.
 
 Fixpoint ts_loop (strict : bool) (bl : list block) (acc : list nat) : res (list nat) :=
